@@ -7,7 +7,13 @@
  * driven through one whole estimate with the SAME arbitrary replies of the caller (x overwritten by any vector at
  * every step).  Every output of every step (kase, x, and finally est, v) must agree.  E2 (Real).
  */
+#ifdef VH_SINGLE
+#include "slu_mt_sdefs.h"
+#define VH_LREAL float
+#else
 #include "slu_mt_ddefs.h"
+#define VH_LREAL double
+#endif
 #include "vh.h"
 int vh_log_i; double vh_log_d;
 #include "env_stubs.h"
@@ -35,28 +41,28 @@ static const int vh_script[][2] = {{1,1},{2,1},{3,-1},{1,5},{1,1},{9,9},{1,1},{1
 #define FREE_FROM 99
 #endif
 #endif
-extern int_t dlacon_A(int_t *, double *, double *, int_t *, double *, int_t *);
-extern int_t dlacon_B(int_t *, double *, double *, int_t *, double *, int_t *);
+extern int_t dlacon_A(int_t *, VH_LREAL *, VH_LREAL *, int_t *, VH_LREAL *, int_t *);   /* dlacon_ or (VH_SINGLE) slacon_ */
+extern int_t dlacon_B(int_t *, VH_LREAL *, VH_LREAL *, int_t *, VH_LREAL *, int_t *);
 
-int_t vhA_iter, vhA_jump, vhA_jlast, vhA_i, vhA_j; double vhA_altsgn, vhA_estold;   /* the statics of copy A */
+int_t vhA_iter, vhA_jump, vhA_jlast, vhA_i, vhA_j; VH_LREAL vhA_altsgn, vhA_estold;   /* the statics of copy A */
 
 VH_MAIN
 {
-    static double vA[N], xA[N], vB[N], xB[N]; static int_t isA[N], isB[N];
-    double estA = 0, estB = 0; int_t kA = 0, kB = 0, n = N; int s, i, done = 0;
+    static VH_LREAL vA[N], xA[N], vB[N], xB[N]; static int_t isA[N], isB[N];
+    VH_LREAL estA = 0, estB = 0; int_t kA = 0, kB = 0, n = N; int s, i, done = 0;
     vhA_iter = vh_int(); vhA_jump = vh_int(); vhA_jlast = vh_int(); vhA_i = vh_int(); vhA_j = vh_int();   /* whatever earlier estimates left */
-    vhA_altsgn = vh_double(); vhA_estold = vh_double();
+    vhA_altsgn = (VH_LREAL)vh_double(); vhA_estold = (VH_LREAL)vh_double();
     for (s = 0; s < STEPS && !done; ++s) {
         dlacon_A(&n, vA, xA, isA, &estA, &kA);
         dlacon_B(&n, vB, xB, isB, &estB, &kB);
         vh_assert(kA == kB, "same request to the caller whatever the estimator's leftover state");
         for (i = 0; i < N; ++i) vh_assert(xA[i] == xB[i], "same vector handed to the caller whatever the leftover state");
         if (kA == 0 && kB == 0) done = 1;
-        else for (i = 0; i < N; ++i) { double r = vh_double();   /* any reply of the caller */
+        else for (i = 0; i < N; ++i) { VH_LREAL r = (VH_LREAL)vh_double();   /* any reply of the caller */
 #ifdef SCRIPT
-            if (s < FREE_FROM) r = (double)vh_script[s][i];   /* assigned, not assumed: the symbolic executor then folds the scripted prefix */
+            if (s < FREE_FROM) r = (VH_LREAL)vh_script[s][i];   /* assigned, not assumed: the symbolic executor then folds the scripted prefix */
 #ifdef WITNESS
-            else r = (double)vh_script[s][i];   /* witness twin: the whole script */
+            else r = (VH_LREAL)vh_script[s][i];   /* witness twin: the whole script */
 #endif
 #elif defined(WITNESS) && defined(WIT_PIN)
             vh_assume(r == (double)(i + 1));   /* witness twin only: one concrete run */
